@@ -4,6 +4,7 @@ Feasibility is the *algorithm-side predicate*: FEAS(rates, infrastructure) is th
 utils.infrastructure_constraints_feasible on a 1-D rate vector (an uninterpreted predicate over the vector's contents and the
 infrastructure object; that it equals the phasor definition is C06's business and is only monitored so far)."""
 import z3
+from pyvc.vtypes import FA
 from pyvc.contracts_api import REG, C, RaiseSpec, LoopSpec
 from pyvc.dsl import And, Or, Not, Implies, If, Eq, AllIdx, AnyIdx
 from pyvc.vtypes import Real, Int, Bool, Id, Ref, Opt, Seq, RefSort
@@ -43,7 +44,7 @@ def _dmf_inv(s):
         ("index_in_range", And(k >= 0, k < al.len)),
         ("trial_is_schedule_with_level_k", And(s.new_schedule.len == sch.len,
                                                s.new_schedule.v.arrs[0] == z3.Store(sch.v.arrs[0], idx, z3.Select(al.v.arrs[0], k)))),
-        ("levels_above_k_are_infeasible", z3.ForAll([j], z3.Implies(z3.And(j > k, j < al.len),
+        ("levels_above_k_are_infeasible", FA([j], z3.Implies(z3.And(j > k, j < al.len),
                                                                     z3.Not(feas_with(sch, idx, z3.Select(al.v.arrs[0], j), inf))),
                                                     patterns=[z3.Select(al.v.arrs[0], j)])),
     ]
@@ -54,9 +55,9 @@ def _dmf_post(old, new, ret):
     j = z3.Int("dj!post")
     k = z3.Int("dk!post")
     is_level = z3.Exists([k], z3.And(k >= 0, k < al.len, z3.Select(al.v.arrs[0], k) == ret, feas_with(sch, idx, ret, inf),
-                                     z3.ForAll([j], z3.Implies(z3.And(j > k, j < al.len), z3.Not(feas_with(sch, idx, z3.Select(al.v.arrs[0], j), inf))),
+                                     FA([j], z3.Implies(z3.And(j > k, j < al.len), z3.Not(feas_with(sch, idx, z3.Select(al.v.arrs[0], j), inf))),
                                                patterns=[z3.Select(al.v.arrs[0], j)])))
-    none = z3.And(ret == 0, z3.ForAll([j], z3.Implies(z3.And(j >= 0, j < al.len), z3.Not(feas_with(sch, idx, z3.Select(al.v.arrs[0], j), inf))),
+    none = z3.And(ret == 0, FA([j], z3.Implies(z3.And(j >= 0, j < al.len), z3.Not(feas_with(sch, idx, z3.Select(al.v.arrs[0], j), inf))),
                                       patterns=[z3.Select(al.v.arrs[0], j)]))
     return [
         ("C08.largest_feasible_allowable_level_or_zero_if_none", z3.Or(is_level, none)),
